@@ -7,4 +7,4 @@ package compiler
 // C09g: a process-wide counter of nested builtin calls, which made one VM's depth limit depend on what other VMs were
 // doing; seed C05i: a process-wide cache of parsed programs, which the compiler then mutated, so the second compilation
 // of a source differed from the first) needs a disposition here. Dispositions of the listed ones: none: the package has no variables.
-//@ scan[C09.pkgvars.compiler] C09,C05 pkgvars github.com/risor-io/risor/compiler: 
+//@ scan[C09.pkgvars.compiler] C09,C05,C17 pkgvars github.com/risor-io/risor/compiler: 
